@@ -57,6 +57,13 @@ pts == sc.pts
 Prov == 1..Len(pop)
 NP == Len(pts)
 IsSlice(pt) == pt.kind \in {"siface", "sptr"}
+\* ARRAY-typed points ([2]RI, [1]*PB): the collectors serve pointers, interfaces and slices of them only, so an array point never
+\* receives anything: optional -> it stays as it is, required -> start-up fails with an error (never a panic)
+IsArr(pt) == pt.kind \in {"aiface", "aptr"}
+\* sc.preset: every point's field holds a sentinel (not a registered component) before the start; a point that receives nothing
+\* is left UNTOUCHED, i.e. still holds it afterwards
+Sentinel == 99
+Untouched(s) == IF s.preset THEN <<Sentinel>> ELSE <<>>
 
 \* type compatibility of provider attributes a with point pt (what the collectors select by type)
 Compat(pt, a) ==
@@ -64,6 +71,7 @@ Compat(pt, a) ==
       byKind == CASE pt.kind \in {"ptr", "sptr"} -> t.pb
                   [] pt.kind \in {"iface", "siface"} -> t.i1
                   [] pt.kind = "any" -> TRUE
+                  [] IsArr(pt) -> FALSE
       byFunc == CASE pt.fn = "Tick" -> t.hasT
                   [] pt.fn = "Kind" -> \* without returns the method must have no result, so Kind() never matches; with returns it is called
                                        pt.ret # {} /\ t.kind # "" /\ ("*" \in pt.ret \/ t.kind \in pt.ret)
@@ -78,7 +86,7 @@ InitWith(s) ==
   /\ sc = s
   /\ inj = [i \in 1..Len(s.pts) |-> <<>>]
   /\ phase = "collect" /\ status = "run"
-  /\ res = [i \in 1..Len(s.pts) |-> <<>>]
+  /\ res = [i \in 1..Len(s.pts) |-> Untouched(s)]
 Init == \E s \in Scenarios : InitWith(s)
 
 \* ---------------------------------------------------------------- collection (Order 2)
@@ -86,7 +94,7 @@ Init == \E s \in Scenarios : InitWith(s)
 CollectChoices(pt) ==
   IF pt.tag = "func" THEN Perms(CompatSet(pt))
   ELSE IF pt.byName = 0 THEN (IF pt.kind = "any" THEN {<<>>} ELSE Perms(CompatSet(pt)))
-  ELSE IF IsSlice(pt) THEN {<<>>}                   \* a name on a slice point is ignored
+  ELSE IF IsSlice(pt) \/ IsArr(pt) THEN {<<>>}     \* a name on a slice / array point is ignored
   ELSE IF pt.byName = -1 THEN {<<NIL>>}             \* GetMetaByName finds nothing: a nil is recorded
   ELSE IF FixF2 /\ ~Compat(pt, pop[pt.byName]) THEN {<<NIL>>}
   ELSE {<<pt.byName>>}
@@ -162,7 +170,7 @@ Spec == Init /\ [][Next]_vars
 Cands(pt) ==
   LET base == IF pt.tag = "func" THEN CompatSet(pt)
               ELSE IF pt.byName = 0 THEN (IF pt.kind = "any" THEN {} ELSE CompatSet(pt))
-              ELSE IF pt.byName = -1 \/ IsSlice(pt) THEN {}
+              ELSE IF pt.byName = -1 \/ IsSlice(pt) \/ IsArr(pt) THEN {}
               ELSE IF Compat(pt, pop[pt.byName]) THEN {pt.byName} ELSE {}
       q == IF ~pt.hasQ THEN base ELSE {p \in base : QualOK(pt, pop[p])}
   IN q \ {H}
@@ -172,34 +180,38 @@ TieSet(pt) ==
       unnamed == {p \in c : ~pop[p].named} IN
   IF prim # {} THEN prim ELSE IF unnamed # {} THEN unnamed ELSE c
 SeqSet(s) == {s[i] : i \in 1..Len(s)}
+\* what a point RECEIVED: an untouched preset field received nothing
+R(i) == IF sc.preset /\ res[i] = <<Sentinel>> THEN <<>> ELSE res[i]
 Done == phase = "done"
 ExpectedOK == \A i \in 1..NP : pts[i].req => Cands(pts[i]) # {}
 
 \* C06: sound and complete by type
-C06_Sound == status = "ok" => \A i \in 1..NP : \A p \in SeqSet(res[i]) : Compat(pts[i], pop[p]) /\ p # H
+C06_Sound == status = "ok" => \A i \in 1..NP : \A p \in SeqSet(R(i)) : Compat(pts[i], pop[p]) /\ p # H
 C06_CompleteSlice ==
   status = "ok" => \A i \in 1..NP : (IsSlice(pts[i]) /\ ~pts[i].hasQ /\ pts[i].byName = 0) =>
-      (SeqSet(res[i]) = Cands(pts[i]) /\ Len(res[i]) = Cardinality(Cands(pts[i])))
+      (SeqSet(R(i)) = Cands(pts[i]) /\ Len(R(i)) = Cardinality(Cands(pts[i])))
 C06_SingleOne ==
   status = "ok" => \A i \in 1..NP : (~IsSlice(pts[i]) /\ Cands(pts[i]) # {}) =>
-      (Len(res[i]) = 1 /\ res[i][1] \in Cands(pts[i]))
+      (Len(R(i)) = 1 /\ R(i)[1] \in Cands(pts[i]))
 \* C07: by name
-ByNamePoint(pt) == pt.tag = "wire" /\ pt.byName # 0 /\ ~IsSlice(pt)
+ByNamePoint(pt) == pt.tag = "wire" /\ pt.byName # 0 /\ ~IsSlice(pt) /\ ~IsArr(pt)
 C07_Exactly ==
   status = "ok" => \A i \in 1..NP : ByNamePoint(pts[i]) =>
-      IF Cands(pts[i]) # {} THEN res[i] = <<pts[i].byName>> ELSE res[i] = <<>>
+      IF Cands(pts[i]) # {} THEN R(i) = <<pts[i].byName>> ELSE R(i) = <<>>
 C07_MissingFails ==
   Done => \A i \in 1..NP : (ByNamePoint(pts[i]) /\ Cands(pts[i]) = {} /\ pts[i].req) => status = "err"
+\* ... and a point that receives nothing is left untouched: a field that held something before the start still holds it
+C07_Untouched == status = "ok" => \A i \in 1..NP : Cands(pts[i]) = {} => res[i] = Untouched(sc)
 \* C08: qualifier and preference, per field
 C08_Qualifier ==
-  status = "ok" => \A i \in 1..NP : pts[i].hasQ => \A p \in SeqSet(res[i]) : QualOK(pts[i], pop[p])
+  status = "ok" => \A i \in 1..NP : pts[i].hasQ => \A p \in SeqSet(R(i)) : QualOK(pts[i], pop[p])
 C08_Preference ==
-  status = "ok" => \A i \in 1..NP : (~IsSlice(pts[i]) /\ res[i] # <<>>) => res[i][1] \in TieSet(pts[i])
+  status = "ok" => \A i \in 1..NP : (~IsSlice(pts[i]) /\ R(i) # <<>>) => R(i)[1] \in TieSet(pts[i])
 PointOK(i) ==
   LET pt == pts[i] IN
-  IF Cands(pt) = {} THEN res[i] = <<>>
-  ELSE IF IsSlice(pt) THEN SeqSet(res[i]) = Cands(pt) /\ Len(res[i]) = Cardinality(Cands(pt))
-  ELSE Len(res[i]) = 1 /\ res[i][1] \in TieSet(pt)
+  IF Cands(pt) = {} THEN R(i) = <<>>
+  ELSE IF IsSlice(pt) THEN SeqSet(R(i)) = Cands(pt) /\ Len(R(i)) = Cardinality(Cands(pt))
+  ELSE Len(R(i)) = 1 /\ R(i)[1] \in TieSet(pt)
 C08_Independent == status = "ok" => \A i \in 1..NP : PointOK(i)
 \* C09: clean failure
 C09_NoPanic == status # "panic"
